@@ -171,6 +171,22 @@ def run(chk):
                 chk.violation('parsing an RFC-conformant DNSKEY does not recover the encoded key: implementation %s, specification %s' % (i[:160], m[:160]),
                               {'cmd': l, 'impl': i, 'spec': m}, key, True)
         chk.coverage['dnskey_decoded'] = len(dec_lines)
+        # MX in the decode direction: the RDATA of the specification (the null MX "0 ." of RFC 7505 and one-label exchanges
+        # included) parsed by the implementation gives the preference and the exchange
+        mx_lines = ['mxdec ' + m[3:] for l, m in zip(lines, model_out) if l.startswith('mxenc ') and m.startswith('OK ')]
+        mx_lines += ['mxdec 000000', 'mxdec 000a00', 'mxdec ffff00', 'mxdec 0000016100', 'mxdec 000a', 'mxdec 000a0161', 'mxdec 000a000000']
+        nmx = 0
+        for l, m in zip(mx_lines, common.run_model(mx_lines)):
+            i = impl.impl_line(l)
+            if m.startswith('OK ') and m != i and nmx < 3:
+                nmx += 1
+                chk.violation('parsing RFC-conformant MX RDATA %s does not recover preference and exchange: implementation %s, specification %s' % (l.split(' ')[1][:60], i[:100], m[:100]),
+                              {'cmd': l, 'impl': i, 'spec': m}, None, True)
+            elif m == 'NONE' and i.startswith('OK ') and nmx < 3:
+                nmx += 1
+                chk.violation('MX RDATA %s that is not an encoding of the specification is accepted: %s' % (l.split(' ')[1][:60], i[:100]), {'cmd': l, 'impl': i, 'spec': m}, None, True)
+        chk.coverage['mx_decoded'] = len(mx_lines)
+        dec_lines = dec_lines + mx_lines
     else:
         chk.violation('model runner does not build: %s' % br.failed_file, {'error': br.error}, None, False)
     # TXT RDATA is one or more <character-string>s (RFC 1035 3.3.14), empty ones included and anywhere: the conformant encoding
